@@ -53,24 +53,36 @@ def confirm(P, mut):
         sh("git -C /repo worktree remove --force %s" % wt)
 
 
-def run(name, checks):
+def run(name, checks, inplace=False):
+    """default: a scratch worktree of /repo HEAD with the patch applied, used through MODELX_REPO (so that /repo
+    itself never moves under checks running in parallel); inplace=True applies to /repo and reverts"""
     d = os.path.join(SEEDED, name)
     meta = json.load(open(os.path.join(d, "meta.json")))
     checks = checks or [meta["property"]]
-    st = sh("git -C /repo status --porcelain").stdout.strip()
-    assert not st, "/repo not clean: " + st
-    r = sh("git -C /repo apply %s/patch.diff" % d)
-    assert r.returncode == 0, "patch does not apply to the current /repo HEAD (rebase it by hand): " + r.stderr
+    if inplace:
+        st = sh("git -C /repo status --porcelain").stdout.strip()
+        assert not st, "/repo not clean: " + st
+        wt = "/repo"
+    else:
+        wt = "/tmp/wt/seedrun_%s_%d" % (name, os.getpid())
+        sh("git -C /repo worktree remove --force %s" % wt)
+        r = sh("git -C /repo worktree add -q --detach %s HEAD" % wt)
+        assert r.returncode == 0, r.stderr
     out = {}
     try:
+        r = sh("git -C %s apply %s/patch.diff" % (wt, d))
+        assert r.returncode == 0, "patch does not apply to the current /repo HEAD (rebase it by hand): " + r.stderr
         for c in checks:
             t = time.time()
-            p = sh("cd %s && ./check %s --tier quick" % (ROOT, c))
+            p = sh("cd %s && MODELX_REPO=%s ./check %s --tier quick" % (ROOT, wt, c))
             lines = [l for l in p.stdout.split("\n") if l.startswith(("VIOLATION", "KNOWN", "INFRA"))]
             out[c] = {"rc": p.returncode, "lines": lines[:4], "s": round(time.time() - t, 1)}
             print(name, c, out[c])
     finally:
-        sh("git -C /repo checkout -- .")
+        if inplace:
+            sh("git -C /repo checkout -- .")
+        else:
+            sh("git -C /repo worktree remove --force %s" % wt)
         sh("cd %s && git checkout -- evidence" % ROOT)
     res_path = os.path.join(d, "result.json")
     prev = json.load(open(res_path)) if os.path.exists(res_path) else {}
